@@ -1,6 +1,6 @@
 (** C12 - Every returned time-respecting path is a genuine one. *)
 From DynVerif Require Import Base Graph Annotate Paths.
-From DynVerif.proofs Require Import SnapInv PathFacts.
+From DynVerif.proofs Require Import SnapInv PathFacts PathComplete PathValid.
 From Coq Require Import Sorting.Sorted.
 
 (** For every graph whose snapshot table has distinct keys (true of every reachable graph: C04), every path of
@@ -37,10 +37,20 @@ Theorem C12_window_error : forall g u v s e, has_node g u s = true -> window_ids
 Proof. intros g u v s e Hn Hw. unfold time_respecting_paths, temporal_dag. rewrite Hn, Hw. reflexivity. Qed.
 Print Assumptions C12_window_error.
 
-(** PARTIAL: "every intermediate node has an interaction at each snapshot id strictly between its arrival and its
-    departure" is enforced by the frontier of temporal_dag (an occurrence is dropped at the first instant without a
-    neighbour); the frontier invariant is not proved here -- that condition is validated by the harness oracle on
-    the implementation for every generated graph (see DESIGN). *)
+(** every intermediate node has an interaction (outgoing, on directed graphs) at each snapshot id strictly between
+    its arrival and its departure: for a proper window [ids], every returned path is a [valid_path] -- the very
+    notion the completeness theorem of C13 is stated with ([valid_from] carries the [alive] condition) *)
+Theorem C12_valid : forall g u v ids p, StronglySorted Z.lt ids ->
+  In p (all_paths_dag u (dag_of' g u v ids)) -> valid_path g ids u p.
+Proof. exact paths_valid. Qed.
+Print Assumptions C12_valid.
+
+(** the frontier is sound: an edge X@s -> Y@t with s < t exists only if X had a neighbour at every window id in between *)
+Theorem C12_edges_alive : forall g u v ids, StronglySorted Z.lt ids ->
+  forall x s y t, In (Occ x s, Occ y t) (d_edges (dag_of' g u v ids)) -> s < t -> alive g ids x s t.
+Proof. exact dag_edges_alive. Qed.
+Print Assumptions C12_edges_alive.
+
 Example C12_example :
   let g := fst (add_interaction (fst (add_interaction (fst (add_interaction (empty_graph false true) 1 2 (Some 0) None)) 2 3 (Some 1) None)) 1 3 (Some 2) None) in
   time_respecting_paths g 1 (Some 3) None None = PathsOk [[(1, 2, 0); (2, 3, 1)]; [(1, 3, 2)]].
